@@ -11,15 +11,19 @@ TRUSTED = ['Lean 4.33 kernel + Mathlib', 'axioms: propext, Classical.choice, Quo
 KEYS = ('TSTART', 'TSTOP', 'ONTIME', 'LIVETIME', 'DEADC')
 
 
-def build_file(g, d, two_gti=True):
-    """Synthetic file through the package writer with real LIVETIME column and keywords, two GTIs with a gap, PHASE column."""
+def build_file(g, d, two_gti=True, long_=False):
+    """Synthetic file through the package writer with real LIVETIME column and keywords, two GTIs with a gap, PHASE column.
+    long_: an observation whose summed LIVETIME column exceeds 2^31 microseconds (no single entry does)."""
     import evfile
     from astropy.io import fits
     gtis = [(10000., 10800.), (11200., 12000.)] if two_gti else [(10000., 12000.)]
     n = int(g.integers(300, 900))
+    if long_:
+        gtis = [(10000., 13200.), (13700., 16400.)]
+        n = int(g.integers(1500, 2500))
     t = numpy.sort(numpy.concatenate([g.uniform(a, b, n // len(gtis)) for a, b in gtis]))
     path = os.path.join(d, 'kw%d.fits' % int(g.integers(0, 10 ** 9)))
-    evfile.write_event_file(path, t, gtis=gtis, tstart=10000., tstop=12000., deadtime=float(g.choice([0.00108, 0.05, 0.3])), tag=numpy.arange(1, len(t) + 1))
+    evfile.write_event_file(path, t, gtis=gtis, tstart=10000., tstop=gtis[-1][1], deadtime=float(g.choice([0.00108, 0.05, 0.3])), tag=numpy.arange(1, len(t) + 1))
     with fits.open(path) as h:
         m = len(h['EVENTS'].data)
         phase = g.uniform(0, 1, m).astype(numpy.float32)
@@ -183,12 +187,12 @@ def run_cases(chk, n, tagname, budget=1):
     with scratch() as d:
         drv = Driver()
         jobs = []
-        files = [build_file(g, d, True), build_file(g, d, False)]
+        files = [build_file(g, d, True), build_file(g, d, False), build_file(g, d, True, long_=True)]
         for i in range(n * budget):
-            path, gtis = files[i % 2]
+            path, gtis = files[i % 3]
             o = one_step(chk, g, drv, jobs, path, gtis, 0)
             # a second selection on the output of the first (multi-step history)
-            if o is not None and i % 3 == 0:
+            if o is not None and i % 4 == 0:
                 hd, t, _, _ = headers(o)
                 if len(t) > 20:
                     one_step(chk, g, drv, jobs, o, gtis, 1)
@@ -209,7 +213,7 @@ def run_cases(chk, n, tagname, budget=1):
 
 
 def main(chk):
-    chk.rule = ('real xEventSelect.select(ltimeupdate=True) on synthetic one- and two-GTI files written by the package (real LIVETIME column, three dead times): '
+    chk.rule = ('real xEventSelect.select(ltimeupdate=True) on synthetic one- and two-GTI files written by the package (real LIVETIME column, three dead times; one observation long enough for the summed LIVETIME column to exceed 2^31 microseconds): '
                 'one- and two-sided time and phase windows, windows inside a GTI gap (no event selected), both livetime algorithms, a second selection applied to the '
                 'output of the first; TSTART/TSTOP/ONTIME/LIVETIME/DEADC of PRIMARY, EVENTS and GTI compared with the documented values and with the Lean model '
                 'run on Float. non-trivial = one-sided window or two GTIs')
